@@ -19,9 +19,10 @@ From ApiFu Require Val.Values Val.CoerceModel.
 Import ListNotations.
 
 Record mode := { fix1 : bool; fix7 : bool; memo : bool;
-                 fixd : bool }.   (* a directive's coercion error is reported once per operation *)
-Definition fixed : mode := {| fix1 := true; fix7 := true; memo := true; fixd := true |}.
-Definition fixed_nomemo : mode := {| fix1 := true; fix7 := true; memo := false; fixd := true |}.
+                 fixd : bool;      (* a directive's coercion error is reported once per operation *)
+                 fullkey : bool }. (* the memo key of collectFields is the code's: EVERY selection's position *)
+Definition fixed : mode := {| fix1 := true; fix7 := true; memo := true; fixd := true; fullkey := true |}.
+Definition fixed_nomemo : mode := {| fix1 := true; fix7 := true; memo := false; fixd := true; fullkey := true |}.
 
 (** ** grouped_field_set.go *)
 Record group := { g_key : name; g_first : fnode; g_more : list fnode }.          (* Fields is never empty *)
@@ -229,13 +230,40 @@ Arguments ROutOfFuel {A}.
 (** completeValue(fieldType, fields, <a fixed result>, path) with the executor state threaded *)
 Definition completer := sty -> fnode -> list fnode -> rpath -> state -> res json * state.
 
-(** the cache key of collectFields: object name, then line and column of every selection as
-    little-endian uint32 *)
+(** ** THE MEMO KEY of collectFields (executor.go, collectFields):
+
+      cacheKeyBytes := make([]byte, len(objectType.Name) + 8*len(selections))
+      copy(cacheKeyBytes, objectType.Name)
+      for i, sel := range selections {
+          PutUint32(cacheKeyBytes[nameLen+i*8:],   uint32(sel.Position().Line))
+          PutUint32(cacheKeyBytes[nameLen+i*8+4:], uint32(sel.Position().Column)) }
+
+    i.e. the object type's name followed by line and column of EVERY selection of the list, in
+    order ([cache_key]).  collectFields is called with the selection list of an operation, or with
+    the MERGED sub-selections of a group of field nodes (mergeSelectionSets: a concatenation, so
+    the same node can occur in many different lists).  The cache is sound because the key
+    determines (object type, list of selection nodes):
+      - [cache_key_inj] (ArgCacheProofs): the key determines the type name and the list of
+        positions — needs type names without zero byte and lines < 2^24, columns < 2^32;
+      - [positions_determine]: inside one document equal position lists are equal selection
+        lists — needs pairwise distinct positions ([doc_positions_okb]).
+    Every component matters.  A key that keeps less — say (type, position of the FIRST selection,
+    number of selections): [coarse_key] — is not injective on the lists the executor produces:
+    a fragment's field node that merges with different sibling nodes at two spread sites yields
+    two lists with the same type, the same first node and the same length.  The model has such a
+    key behind the flag [fullkey = false] only to exhibit that
+    ([collect_cache_transparent_refuted_coarse_key]); the code, and [fixed], use [cache_key]. *)
 Definition le32 (n : N) : bytes :=
   let m := N.modulo n 4294967296 in
   [N.modulo m 256; N.modulo (N.div m 256) 256; N.modulo (N.div m 65536) 256; N.div m 16777216]%N.
 Definition cache_key (ot : name) (sels : list selection) : bytes :=
   ot ++ flat_map (fun s => le32 (line (sel_pos s)) ++ le32 (col (sel_pos s))) sels.
+
+Definition coarse_key (ot : name) (sels : list selection) : bytes :=
+  ot ++ match sels with
+        | [] => []
+        | s :: _ => le32 (line (sel_pos s)) ++ le32 (col (sel_pos s))
+        end ++ le32 (N.of_nat (length sels)).
 
 Definition mk_err (path : rpath) (locs : list pos) : gerror := {| e_path := path; e_locs := locs |}.
 
@@ -261,7 +289,7 @@ Section Exec.
   (** collectFields *)
   Definition collect_fields (ot : name) (sels : list selection) (st : state) : cfres * state :=
     if memo M then
-      let key := cache_key ot sels in
+      let key := if fullkey M then cache_key ot sels else coarse_key ot sels in
       match assoc key (st_cache st) with
       | Some g => (CFOk g, st)
       | None =>
@@ -562,7 +590,7 @@ Definition get_operation (R : request_doc) (opname : name) : gop := get_operatio
     coerced variables. *)
 Definition coerce_request_vars (S : schema) (o : operation) (raw : list (name * Values.jval))
   : Values.res (list (name * Values.gval)) :=
-  CoerceModel.coerce_variable_values CoerceModel.all_fixed (s_inputs S) no_datetime (map fst (o_vardefs o)) raw.
+  CoerceModel.coerce_variable_values CoerceModel.all_fixed (s_inputs S) (dt_oracle S) (map fst (o_vardefs o)) raw.
 
 Definition run_request (M : mode) (S : schema) (R : request_doc) (opname : name)
            (raw : list (name * Values.jval)) (fuel : nat) (W : outcome) : run_result :=
